@@ -613,6 +613,24 @@ def rule_acceptance_at_end(ctx, rep, config="c-lib"):
         txt = _norm(f, c, pol)
         if txt and "toks_len" in txt:
             found.append((c, txt))
+            continue
+        # the test kept in a flag (`found_p = a || b; if (found_p)'): the comparisons merged into the truth value that is tested again
+        if c.d["pred"] in ("ne", "eq") and const_int(c.ops[1]) == 0 and pol == (c.d["pred"] == "ne"):
+            x = f.inst(strip_int_casts(f, c.ops[0]))
+            work, seen = [x], set()
+            while work:
+                y = work.pop()
+                if y is None or y.id in seen:
+                    continue
+                seen.add(y.id)
+                if y.op == "phi":
+                    work.extend(f.inst(strip_int_casts(f, v)) for (v, _) in y.d["incoming"])
+                elif y.op in ("zext", "or", "select"):
+                    work.extend(f.inst(strip_int_casts(f, v)) for v in y.ops if isinstance(v, dict))
+                elif y.op == "icmp":
+                    txt2 = _norm(f, y, True)
+                    if txt2 and "toks_len" in txt2:
+                        found.append((y, txt2))
     if not found:
         raise AnalysisBroken("R16-accept: no test of the token position against toks_len leads into the acceptance block")
     for (c, txt) in found:
